@@ -1,6 +1,20 @@
 """C03 - decided on the request-level model: proofs in coq/theories/Props/C03.v, predicate p_c03
-(coq/theories/Spec/Preds.v) evaluated on the implementation's observations, projection facets 10,13,152,153."""
+(coq/theories/Spec/Preds.v) evaluated on the implementation's observations, projection facets 10,13,152,153;
+plus the fault enumeration of the flows in which a session meets the lock / confirm middlewares after its account lost
+its standing, and of the login flows (a backend failure must not open what the lock or the confirmation closes)."""
+import vlib
 import worldprop
 
-P = worldprop.WorldProp("C03", "p_c03", [('general', 150, 2500), ('lock', 150, 2500), ('oauth2', 100, 1500)], {10,13,152,153})
+SIZES = dict(general=(150, 2500), lock=(150, 2500), oauth2=(100, 1500))
+
+
+class C03(worldprop.WorldProp):
+    def gen_fn(self, binp, prof, thorough):
+        if prof != "faults":
+            n = SIZES[prof]
+            return worldprop.generate(binp, prof, n[1] if thorough else n[0], 60 if thorough else 30, vlib.seed(), "C03_" + prof)
+        return worldprop.fault_flows(binp, ["app-", "login-unconfirmed", "login-ok"], thorough, "c03")
+
+
+P = C03("C03", "p_c03", [(k, v[0], v[1]) for k, v in SIZES.items()] + [("faults", 0, 0)], {10, 13, 152, 153})
 run, replay = P.run, P.replay
